@@ -42,9 +42,13 @@ DQuoRoundUp(a, b) ==
   IN  IF IsNeg(x) THEN BNeg(BQuo(BNeg(x), ONE)) ELSE ChopUpAbs(x)
 
 \* Dec.Power(n): square-and-multiply with a rounded Mul at every step, in the SDK's order
+\* LegacyDec panics with "Int overflow" when a (chopped) product needs more than 315 bits
+POW2_315 == "66749594872528440074844428317798503581334516323645399060845050244444366430645017188217565216768"
+Overflow(x) == BLe(POW2_315, BAbs(x))
 RECURSIVE PowLoop(_, _, _)
 PowLoop(d, tmp, i) ==
-  IF i <= 1 THEN DMul(d, tmp)
+  IF Overflow(d) \/ Overflow(tmp) THEN POW2_315          \* the SDK has panicked by now; stop before the numbers explode
+  ELSE IF i <= 1 THEN DMul(d, tmp)
   ELSE PowLoop(DMul(d, d), IF i % 2 # 0 THEN DMul(tmp, d) ELSE tmp, i \div 2)
 DPow(d, n) == IF n = 0 THEN ONE ELSE PowLoop(d, ONE, n)
 
